@@ -22,11 +22,11 @@ package couchbase
 //@ func (*asyncOp).Wait
 //@ params m op err
 //@ props C20
-//@ requires m != nil && m.ctx != nil && m.signal != nil && !chclosed(m.signal) && (err == nil ==> op != nil)
+//@ requires m != nil && m.ctx != nil && m.signal != nil && !chclosed(m.signal) && (err == nil ==> op != nil) && m.signal != uninterp("ctx.done", m.ctx)
 //@ ensures.early[C20] err != nil ==> result == err && calls(gocbcore.PendingOp.Cancel) == 0 && calls(select.case) == 0
-//@ ensures.waited[C20] err == nil ==> calls(select.case) == 1
-//@ ensures.timeout[C20] err == nil && arg(select.case, 0, index) == 0 ==> calls(gocbcore.PendingOp.Cancel) == 1 && arg(gocbcore.PendingOp.Cancel, 0, recv) == op && result != nil
-//@ ensures.completed[C20] err == nil && arg(select.case, 0, index) == 1 ==> calls(gocbcore.PendingOp.Cancel) == 0 && chrecvd(m.signal) == old(chrecvd(m.signal)) + 1
+//@ ensures.waited[C20] err == nil ==> calls(select.case) == 1 && (arg(select.case, 0, ch) == uninterp("ctx.done", m.ctx) || arg(select.case, 0, ch) == m.signal)
+//@ ensures.timeout[C20] err == nil && arg(select.case, 0, ch) == uninterp("ctx.done", m.ctx) ==> calls(gocbcore.PendingOp.Cancel) == 1 && arg(gocbcore.PendingOp.Cancel, 0, recv) == op && result != nil
+//@ ensures.completed[C20] err == nil && arg(select.case, 0, ch) == m.signal ==> calls(gocbcore.PendingOp.Cancel) == 0 && chrecvd(m.signal) == old(chrecvd(m.signal)) + 1
 //@ modifies chan(m.signal), chan(uninterp("ctx.done", m.ctx)), calls(gocbcore.PendingOp.Cancel), calls(select.case)
 
 //@ iface couchbase.AsyncOp.Resolve
